@@ -39,6 +39,26 @@ CHECKS = {
             "that re-resolves to exactly that node in both notations, with "
             "no path object mutated after it was handed out.",
             TRUST, "6/C02"),
+    "C12": (True, "exploration",
+            "complete finite grid + Hypothesis generation against a "
+            "reference comparison table; metamorphic inversion-complement "
+            "relation on enumerated documents",
+            "The full operator x haystack x needle grid (9 x 41 x 40) is "
+            "compared with a reference table written from the statement; "
+            "cells the documentation leaves open are Unspecified and only "
+            "checked for not raising. The inverted search must be the exact "
+            "complement of the plain one on every list/hash/set of ~1.2e5 "
+            "(document, search) pairs.",
+            TRUST, "6/C12"),
+    "C13": (True, "exploration",
+            "exhaustive small-scope enumeration against definitional "
+            "oracles (Counter / max on plain values)",
+            "Every same-kind scalar sequence, Array-of-Hashes and "
+            "hash-of-hashes of <= 4 members (with ties, repeats, nulls, "
+            "missing attributes) x keyword x inversion x parameter "
+            "presence is compared with the keyword's definition; "
+            "parent(n)/name() at every position of the C01 documents.",
+            TRUST, "6/C13"),
     "C15": (True, "exploration",
             "exhaustive small-scope enumeration + Hypothesis generation "
             "against an exception-type oracle with signature bucketing",
